@@ -24,6 +24,8 @@
   proves that this is the table extracted from the current working tree.
 -/
 import TypedpyModel.Lemmas.Elab
+import TypedpyModel.Sem.Deser
+import TypedpyModel.Sem.Schema
 namespace Typedpy.C13
 open Typedpy Typedpy.Elab
 
@@ -143,6 +145,50 @@ theorem same_behaviour (O : Oracles) {c₁ c₂ : ClassSp} (h : ClassSame c₁.f
     (h₁ : classSupported O tm c₁ = true) (h₂ : classSupported O tm c₂ = true)
     (kw : List (String × PyVal)) : classBehaviour O c₁ kw = classBehaviour O c₂ kw := by
   simp only [classBehaviour, elabClass_equiv O h h₁ h₂]
+
+/-! ### "behaviourally identical" as theorems: every operation of the other models is a function of the
+    class declaration, so equal declarations give equal results (one congruence theorem per operation) -/
+
+/-- any observation of the class statement's result -/
+def observe {α : Type} (O : Oracles) (c : ClassSp) (obs : FieldDecl → R α) : R α :=
+  bindE (elabClass O tm c) obs
+
+/-- Congruence, once and for all: equivalent class bodies agree on EVERY observation that is a function of the
+    class the statement creates (constructor, serializer, deserializer, schema export, …). -/
+theorem same_observation {α : Type} (O : Oracles) {c₁ c₂ : ClassSp} (h : ClassSame c₁.fields c₂.fields)
+    (h₁ : classSupported O tm c₁ = true) (h₂ : classSupported O tm c₂ = true) (obs : FieldDecl → R α) :
+    observe O c₁ obs = observe O c₂ obs := by
+  simp only [observe, elabClass_equiv O h h₁ h₂]
+
+/-- `Serializer(K(**kw)).serialize()` (`Sem/Serde.serialize` after `Sem/Validate.construct`) -/
+def classSerialize (O : Oracles) (c : ClassSp) (kw : List (String × PyVal)) : R PyVal :=
+  observe O c fun cls => bindE (construct O cls kw) fun x => serialize O cls x
+
+/-- `Deserializer(K).deserialize(doc)` (`Sem/Deser.deserialize`) -/
+def classDeserialize (O : Oracles) (opts : DeserOpts) (c : ClassSp) (doc : PyVal) : R PyVal :=
+  observe O c fun cls => deserialize O opts cls doc
+
+/-- `structure_to_schema(K)` (`Sem/Schema.toSchema`: schema and definitions) -/
+def classSchema (O : Oracles) (c : ClassSp) : R (PyVal × Sch.Defs) :=
+  observe O c fun cls => .ok (Sch.toSchema cls)
+
+/-- Equivalent class bodies serialize every constructed instance identically. -/
+theorem same_serialize (O : Oracles) {c₁ c₂ : ClassSp} (h : ClassSame c₁.fields c₂.fields)
+    (h₁ : classSupported O tm c₁ = true) (h₂ : classSupported O tm c₂ = true)
+    (kw : List (String × PyVal)) : classSerialize O c₁ kw = classSerialize O c₂ kw :=
+  same_observation O h h₁ h₂ _
+
+/-- Equivalent class bodies deserialize every document identically (same instance or same exception class). -/
+theorem same_deserialize (O : Oracles) (opts : DeserOpts) {c₁ c₂ : ClassSp} (h : ClassSame c₁.fields c₂.fields)
+    (h₁ : classSupported O tm c₁ = true) (h₂ : classSupported O tm c₂ = true)
+    (doc : PyVal) : classDeserialize O opts c₁ doc = classDeserialize O opts c₂ doc :=
+  same_observation O h h₁ h₂ _
+
+/-- Equivalent class bodies export the same JSON schema and definitions. -/
+theorem same_schema (O : Oracles) {c₁ c₂ : ClassSp} (h : ClassSame c₁.fields c₂.fields)
+    (h₁ : classSupported O tm c₁ = true) (h₂ : classSupported O tm c₂ = true) :
+    classSchema O c₁ = classSchema O c₂ :=
+  same_observation O h h₁ h₂ _
 
 /-! ### the full statement, and what is proved of it -/
 
@@ -434,6 +480,25 @@ theorem tuple_single_equiv :
     ∧ validate noRe d (.tuple [.str "a"]) = .error .typeErr :=
   ⟨SameMeaning.coll .pep585 .call .tuple (SameMeaning.scalar .builtin .cls .int),
    rfl, rfl, rfl, rfl, rfl, rfl, rfl, rfl, rfl⟩
+
+/-! ### behaviour clause, concretely -/
+
+/-- `a: Optional[list[int]]` (future import) and `a = AnyOf[Array[Integer], None]` + `_optional`: both classes
+    are in the proved region and `ClassSame`; constructing with `a=[1, 2]` and serializing gives `{"a": [1, 2]}`
+    for both, deserializing `{"a": [1]}` gives the same instance, and a wrong element type is rejected by both. -/
+theorem behaviour_example :
+    let cA : ClassSp := { future := true, fields := [{ name := "a", mode := .ann, ty := .optional (.pep585 .list (.builtin .int)) }] }
+    let cB : ClassSp := { future := false, fields := [{ name := "a", mode := .assign, ty := .anyOf (.sub .list fInt) .noneLit, inOptional := true }] }
+    ClassSame cA.fields cB.fields ∧ classSupported noRe tm cA = true ∧ classSupported noRe tm cB = true
+    ∧ classSerialize noRe cA [("a", .list [.int 1, .int 2])] = .ok (.dict [(.str "a", .list [.int 1, .int 2])])
+    ∧ classSerialize noRe cB [("a", .list [.int 1, .int 2])] = .ok (.dict [(.str "a", .list [.int 1, .int 2])])
+    ∧ classDeserialize noRe {} cA (.dict [(.str "a", .list [.int 1])]) = .ok (.inst "K" [("a", .list [.int 1])])
+    ∧ classDeserialize noRe {} cB (.dict [(.str "a", .list [.int 1])]) = .ok (.inst "K" [("a", .list [.int 1])])
+    ∧ classBehaviour noRe cA [("a", .list [.str "x"])] = .error .valueErr
+    ∧ classBehaviour noRe cB [("a", .list [.str "x"])] = .error .valueErr :=
+  ⟨ClassSame.cons ⟨rfl, SameMeaning.optionalAlt .anyOf
+      (SameMeaning.coll .pep585 .sub .list (SameMeaning.scalar .builtin .cls .int)), rfl, rfl⟩ ClassSame.nil,
+   rfl, rfl, rfl, rfl, rfl, rfl, rfl, rfl⟩
 
 /-! ### non-vacuity -/
 
